@@ -10,6 +10,7 @@ use crate::opts::*;
 
 /// The lexeme-fragment alphabet of G_tokens (DESIGN.md section 2).
 pub const FRAGMENTS: &[&[u8]] = &[
+    b".\"b\"", b"'.\"b\"", b"a\"b\"", b".\"", b".|x|", b".'a", b"`.\"x\"", b",@.\"\"", b"[a . b]", b"[a . [b]]", b"(a . b]",
     b"(", b")", b"[", b"]", b"#(", b"#u8(", b"#vu8(", b"'", b"`", b",", b",@", b".", b" . ", b" ", b"\n", b"\t", b"\r", b"\x0c",
     b";", b";c\n", b";x", b"#", b"#t", b"#f", b"#nil", b"#n", b"#ni", b"#:", b"#:k", b"#%", b"#%a", b"#\\", b"#\\a", b"#\\x", b"#\\x41",
     b"#\\space", b"#\\spa", b"#\\(", b"#\\xD800", b"#\\x110000", b"#\\x1000000", b"#b", b"#b101", b"#o17", b"#x", b"#xFf", b"#d", b"#d1", b"#e", b"#b2",
